@@ -9,6 +9,9 @@ TRUST = "trusted base: Linux AF_UNIX+epoll standing in for TCP (address translat
 MS="modelsim tier: the component is driven through its public API in-process under seeded hash order; system tiers named in the evidence not_covered list are not decided by this check."
 
 CHECKS = {
+ "C08": dict(engine="netsim", design="5/C08", category="exploration",
+   text="The real worker receives seeded command histories (every mutating verb valid/invalid/duplicate/unknown-target from the configuration grammar, plus Status, queries, metrics configuration and per-IP limits) from the scripted master, back to back or with barriers, with the command stream fragmented at seeded byte quanta; the same requests are applied to a master-side ConfigState that forwards what it accepted (or everything). Oracles: exactly one final answer per id and no PROCESSING after it, no invented id, no garbage on the channel, no panic; when the worker accepted all it was sent, QueryClustersHashes and QueryClusterById for every cluster equal the master-side state, and every listener address mentioned is probed: sozu accept()s a simulated connection iff the master's view has the listener active.",
+   technique="deterministic simulation (real worker event loop, scripted master with seeded fragmentation) against a master-side reference ConfigState; per-id history oracle"),
  "C10": dict(engine="netsim", design="5/C10", category="exploration",
    text="Two plan families. codec: listener sets 0..200 of every textual address shape sent with the real send_listeners and read back with the real receive_listeners over a real unix socket pair, each returned fd checked against its address, with an fd-table audit. handover: two real workers (two threads under a baton scheduler that decides who runs) and a scripted master replaying ReturnListenSockets -> receive -> boot successor -> SoftStop/activate at seeded moments relative to client traffic; oracles: every listener returns bound to its address, every connect succeeds and every request in flight completes (C01 oracle), the old worker accepts nothing after acknowledging the stop, acknowledges exactly once and exits.",
    technique="deterministic simulation of two real worker event loops + scripted master with seeded hand-over timing; codec round-trip over generated listener sets"),
